@@ -229,6 +229,12 @@ def indexOf (x : Int) : List Int → Nat
 
 def codes (xs : List Int) : List Nat := xs.map fun x => indexOf x (categories xs)
 
+/-- `index_lookup(data, items)` — what a `categorical_ndarray` *derived* from another one (slice,
+reordering, view, copy: `__array_finalize__` hands the parent's categories down) uses for its codes:
+the position of each value in the inherited categories, `none` (NaN) when the value is absent. -/
+def lookupCodes (cats : List Int) (dv : List Int) : List (Option Nat) :=
+  dv.map fun x => if cats.contains x then some (indexOf x cats) else none
+
 end GlueVerif.ArrayUtil
 
 /-! ## Executable specifications (what the property demands of an output) -/
@@ -293,5 +299,13 @@ def specUnique (xs : List Int) (cats : List Int) (cds : List Nat) : Bool :=
   strictSorted cats && cds.length == xs.length &&
   (xs.zip cds).all (fun p => cats[p.2]? == some p.1) &&
   cats.all (fun c => xs.contains c)
+
+/-- Spec for the codes of a derived categorical array: `categories[codes[i]] == values[i]` wherever a
+code is given, and a code is withheld (NaN) only for a value that is not a category. -/
+def specLookup (cats : List Int) (dv : List Int) (cds : List (Option Nat)) : Bool :=
+  cds.length == dv.length &&
+  (dv.zip cds).all fun p => match p.2 with
+    | some k => cats[k]? == some p.1
+    | none => !cats.contains p.1
 
 end GlueVerif.ArrayUtil
